@@ -127,6 +127,7 @@ def run(ctx):
     # the writer prints text operands verbatim; reading them back equal needs the reader to have stored them verbatim
     from rules import lefrules as lr
     lr.rule_text_verbatim(ctx, "R05.3")
+    lr.rule_plain_number_format(ctx, "R05.8")
     ctx.count("token_sequences_simulated", n_seqs)
 
     # ---- R05.1 writer reads every field
